@@ -150,12 +150,12 @@ theorem frontPad_eq (ws : List WEntry) :
   cases ws <;> rfl
 
 /-- the pulse a point pulse template denotes on a kept channel -/
-theorem point_pulseVal {id chans entries meas cons} {σ : Scope} {mm cm} {P : Pulse}
+theorem point_chan {id chans entries meas cons} {σ : Scope} {mm cm} {P : Pulse}
     (hden : denote (.point id chans entries meas cons) σ mm cm = .ok P)
     {c o : Chan} (hc : c ∈ chans) (hcm : cm.lookup c = some (some o)) {ws : List WEntry}
     (hws : instPoint σ (chans.idxOf c) entries = .ok ws) :
     ∃ dur e, entries.getLast? = some e ∧ σ.eval e.t = .ok dur ∧ (dur = 0 → P = Pulse.empty) ∧
-      (dur ≠ 0 → pulseVal P o = entriesToPL (frontPad ws) ∧ sortedTimes (frontPad ws) = true) := by
+      (dur ≠ 0 → P.chans.lookup o = some (entriesToPL (frontPad ws)) ∧ sortedTimes (frontPad ws) = true) := by
   rw [denote] at hden
   simp only [bind_ok_iff] at hden
   obtain ⟨_, _, a, ha, hden⟩ := hden
@@ -218,9 +218,21 @@ theorem point_pulseVal {id chans entries meas cons} {σ : Scope} {mm cm} {P : Pu
         obtain ⟨ms, _, rfl⟩ := hden
         have hdup' : hasDup (cs.map (·.1)) = false := by simpa using hdup
         obtain ⟨e1, e2⟩ := tablePL_ok hpl
-        simp only [pulseVal]
-        rw [lookup_of_mem_nodup cs hdup' hmem]
-        exact ⟨e1, e2⟩
+        refine ⟨?_, e2⟩
+        simp only
+        rw [lookup_of_mem_nodup cs hdup' hmem, e1]
+
+theorem point_pulseVal {id chans entries meas cons} {σ : Scope} {mm cm} {P : Pulse}
+    (hden : denote (.point id chans entries meas cons) σ mm cm = .ok P)
+    {c o : Chan} (hc : c ∈ chans) (hcm : cm.lookup c = some (some o)) {ws : List WEntry}
+    (hws : instPoint σ (chans.idxOf c) entries = .ok ws) :
+    ∃ dur e, entries.getLast? = some e ∧ σ.eval e.t = .ok dur ∧ (dur = 0 → P = Pulse.empty) ∧
+      (dur ≠ 0 → pulseVal P o = entriesToPL (frontPad ws) ∧ sortedTimes (frontPad ws) = true) := by
+  obtain ⟨dur, e, h1, h2, h3, h4⟩ := point_chan hden hc hcm hws
+  refine ⟨dur, e, h1, h2, h3, ?_⟩
+  intro h0
+  obtain ⟨k1, k2⟩ := h4 h0
+  exact ⟨by simp only [pulseVal, k1, Option.getD_some], k2⟩
 
 theorem instPoint_last {σ : Scope} {i : Nat} : ∀ (es : List PEntry) (ws : List WEntry), instPoint σ i es = .ok ws →
     ∀ e, es.getLast? = some e → ∃ w, lastEntry? ws = some w ∧ σ.eval e.t = .ok w.t ∧ pointValue σ e i = .ok w.v
